@@ -811,6 +811,21 @@ class AsyncFIXConnection:
                     return
                 await self._state_set(ConnectionState.LOGON_INITIAL_RECV)
                 self._connection_role = ConnectionRole.ACCEPTOR
+            elif (
+                self._connection_state
+                in {
+                    ConnectionState.LOGON_INITIAL_SENT,
+                    ConnectionState.LOGON_INITIAL_RECV,
+                    ConnectionState.LOGON_RESPONSE,
+                    ConnectionState.WAITING_FOR_LOGON,
+                }
+                and msg.msg_type != FMsg.LOGON
+                and msg.msg_type != FMsg.LOGOUT
+            ):
+                # Logon exchange is not completed yet, only Logon() / Logout() are
+                #  expected: drop connection, same as for unexpected first message
+                await self.disconnect(ConnectionState.DISCONNECTED_BROKEN_CONN)
+                return
 
             if msg.msg_type == FMsg.LOGON:
                 await self._process_logon(msg)
